@@ -404,6 +404,7 @@ fn main() {
                 r.count("aborts", s.aborts as u64);
                 r.count("noop_probes", s.noops as u64);
                 r.count("external_extensions", s.extends as u64);
+                r.count("batched_actions_before_one_run", s.batches as u64);
                 r.count("out_of_issue_order_resolutions", s.out_of_order as u64);
                 r.count("is_done_compared", s.done_checked as u64);
                 r.count("is_done_not_compared_cancellation_sweep_pending", s.done_unknown as u64);
@@ -447,6 +448,42 @@ fn main() {
                     &format!("panic while running a case: {panic}"),
                     json!({"lane": "cmdlab", "setup": setup.name(), "program": program, "rng_state": state, "panic": panic}),
                 );
+            }
+        }
+    }
+    if args.prop == "C02" {
+        // look-alike workload: equal operations, only the request identity tells them apart
+        let n = args.share(4_000, 400_000);
+        for case_no in 0..n {
+            let mut rng = Rng::derive(seed, case_no, 202);
+            let paths = cmdlab::lookalike::Path::all();
+            let path = &paths[rng.usize_below(paths.len())];
+            let n_once = rng.range(2, 24) as usize;
+            let n_stream = rng.range(0, 4) as usize;
+            let items = rng.range(1, 4) as usize;
+            wd.begin(|| json!({"lane": "cmdlab-lookalike", "path": path.name(), "n_once": n_once, "n_stream": n_stream, "items": items, "rng_state": rng.state()}).to_string());
+            let state = rng.state();
+            let res = vcommon::trap(|| cmdlab::lookalike::run(path, &mut rng, n_once, n_stream, items));
+            wd.end();
+            let mut r = report.lock().unwrap();
+            r.eval();
+            r.count("lookalike_cases", 1);
+            r.set("lookalike_paths", path.name());
+            let replay = json!({"lane": "cmdlab-lookalike", "path": path.name(), "n_once": n_once, "n_stream": n_stream, "items": items, "rng_state": state});
+            match res {
+                Ok(o) => {
+                    r.count("lookalike_resolutions", o.resolutions as u64);
+                    r.count("lookalike_rejected_repeats", o.rejected_repeats as u64);
+                    r.count("lookalike_stream_items", o.stream_items as u64);
+                    r.max("max_lookalike_requests_outstanding", (n_once + n_stream) as u64);
+                    if o.problems.is_empty() {
+                        r.nontrivial(hash_json(&replay));
+                    }
+                    for (sig, detail) in o.problems {
+                        r.violation(&sig, &format!("{}: {detail}", sig.replace(['/', '-'], " ")), replay.clone());
+                    }
+                }
+                Err(p) => r.violation(&format!("panic/{}", vcommon::panic_site(&p)), &format!("panic in a look-alike case: {p}"), replay),
             }
         }
     }
